@@ -1,12 +1,114 @@
 /-
-  Driver/OpsSparse.lean — driver ops of the "Sparse" unit (stub: serves nothing yet).
-  Interface: return `none` for requests this unit does not serve, `some reply` otherwise.
+  Driver/OpsSparse.lean — driver ops of the "Sparse" unit (property C19).
+
+  sp_ad | sp_dr_exp | sp_dr_expinv | sp_d2r_exp | sp_d2r_expinv
+        <G> <prec> <rows> <cols> <i0> <nnz> (r c w)×nnz <na> a×na [D <nd> w×nd]
+      host matrix as a column-major triplet list (compressed), tangent `a`, block offset `i0`;
+      optional `D`: the dense Dof×Dof (Dof×Dof²) matrix, row-major, to be written instead of the
+      model's own dense value (bit-exact comparison of the block write itself).
+      Reply: `<isCompressed 0|1> <nonZeros> (r c w)×nonZeros`   (column-major iteration order)
+  sp_pattern <G> - ad|d|d2       → `r c` pairs of the published pattern, column-major
 -/
 import SmoothModel
 import Driver.Ops
+import Driver.OpsMem
 
 namespace Drv
+open Sparse
 
-def runSparse (_op _grp _prec : String) (_args : Array String) : Option String := none
+variable {α : Type} [Scalar α] [Bits α]
+
+def spReply (m : SpMat α) : String :=
+  let head := s!"{if m.compressed then 1 else 0} {m.nonZeros}"
+  let body := m.entries.map (fun e => s!"{e.1.1} {e.1.2} {Bits.toHex e.2}")
+  " ".intercalate (head :: body)
+
+def Cur.triplets (c : Cur) (n : Nat) : Except String (List (Key × α) × Cur) := do
+  let mut c := c
+  let mut out : Array (Key × α) := #[]
+  for _ in [0:n] do
+    let (r, c1) ← c.nat
+    let (cc, c2) ← c1.nat
+    let (w, c3) ← c2.next
+    out := out.push ((r, cc), Bits.ofHex w)
+    c := c3
+  return (out.toList, c)
+
+def Cur.scalars (c : Cur) (n : Nat) : Except String (Array α × Cur) :=
+  if c.pos + n ≤ c.toks.size then
+    .ok ((c.toks.extract c.pos (c.pos + n)).map Bits.ofHex, { c with pos := c.pos + n })
+  else .error "sparse: not enough words"
+
+def sorted (l : List (Key × α)) : Bool :=
+  match l with
+  | [] => true
+  | [_] => true
+  | a :: b :: r => keyLt a.1 b.1 && sorted (b :: r)
+
+@[specialize] def spCall (routine grp : String) (args : Array String) : Except String String := do
+  let some d := GDesc.parse grp | .error s!"unknown-group {grp}"
+  let n := Mem.dofSize d
+  let c : Cur := ⟨args, 0⟩
+  let (rows, c) ← c.nat
+  let (cols, c) ← c.nat
+  let (i0, c) ← c.nat
+  let (nnz, c) ← c.nat
+  let (es, c) ← Cur.triplets (α := α) c nnz
+  if !sorted es then .error "sparse: triplets not column-major sorted"
+  let (na, c) ← c.nat
+  if na ≠ n then .error "sparse: tangent size"
+  let (a, c) ← Cur.scalars (α := α) c na
+  let m : SpMat α := ⟨rows, cols, es, true⟩
+  -- optional dense override
+  let dense? : Option (Array α) ←
+    if c.pos < c.toks.size then do
+      let (t, c1) ← c.next
+      if t ≠ "D" then .error "sparse: expected D"
+      let (nd, c2) ← c1.nat
+      let (ws, _) ← Cur.scalars (α := α) c2 nd
+      pure (some ws)
+    else pure none
+  let hess := routine == "sp_d2r_exp" || routine == "sp_d2r_expinv"
+  let inv := routine == "sp_dr_expinv" || routine == "sp_d2r_expinv"
+  if routine == "sp_ad" then
+    match adSparse d m a with
+    | some m' => return spReply m'
+    | none => .error "sparse: ad_sparse needs a Dof×Dof matrix"
+  else
+    -- the asserts of the C++ (lie_group_sparse_impl.hpp:31-33, 70-72)
+    if rows < i0 + n then .error "sparse: sp.rows() < i0 + Dof"
+    if !hess && cols < i0 + n then .error "sparse: sp.cols() < i0 + Dof"
+    if hess && cols < rows * (i0 + n) then .error "sparse: sp.cols() < sp.rows()·(i0 + Dof)"
+    match dense? with
+    | some ws =>
+      let w := if hess then n * n else n
+      if ws.size ≠ n * w then .error "sparse: dense override size"
+      let pat := if hess then d2Pattern d else dPattern d
+      let wr := patternWrites pat n rows hess i0 (fun r cc => ws.getD (r * w + cc) (Scalar.nat 0))
+      return spReply (m.blockWrite wr)
+    | none =>
+      if hess then return spReply (d2rExpSparse d inv m a i0)
+      else return spReply (drExpSparse d inv m a i0)
+
+def spPattern (grp which : String) : Except String String := do
+  let some d := GDesc.parse grp | .error s!"unknown-group {grp}"
+  let pat ← match which with
+    | "ad" => pure (adPattern d)
+    | "d" => pure (dPattern d)
+    | "d2" => pure (d2Pattern d)
+    | _ => .error "sparse: which ∈ ad|d|d2"
+  return " ".intercalate (pat.map (fun k => s!"{k.1} {k.2}"))
+
+def runSparse (op grp prec : String) (args : Array String) : Option String :=
+  let wrap (r : Except String String) : Option String :=
+    match r with
+    | .ok s => some s
+    | .error e => some ("ERR " ++ e)
+  if op == "sp_pattern" then wrap (spPattern grp (args.getD 0 ""))
+  else if op == "sp_ad" || op == "sp_dr_exp" || op == "sp_dr_expinv" || op == "sp_d2r_exp" || op == "sp_d2r_expinv" then
+    if prec == "f64" then wrap (spCall (α := Float) op grp args)
+    else if prec == "f32" then wrap (spCall (α := Float32) op grp args)
+    else some "ERR bad-prec"
+  else none
 
 end Drv
